@@ -558,7 +558,7 @@ func txBodyKinds(n *xstate.Node) string {
 
 func runC08(ctx *core.Ctx, pool *par.Pool) {
 	cfgs := []pagedrv.Cfg{pagedrv.CfgA, pagedrv.CfgC}
-	depth, seedDepth := 6, 4
+	depth, seedDepth := 6, 5
 	bursts := []int{1, 2, 3}
 	ctx.SetBudget(120 * time.Second)
 	if !ctx.Quick() {
